@@ -311,6 +311,8 @@ _CACHE = {}
 
 def _init(seed):
     global _L, _SEED, _INIT
+    if _L is not None and _SEED == seed:
+        return  # already built for this seed (reset is called once per chunk)
     _L = letters(seed)
     _SEED = seed
     _INIT = {}
@@ -1759,10 +1761,10 @@ def stages(tier, seed):
                      for gname in ("HPowGate", "XPowGate", "CNotPowGate", "CZPowGate", "MeasurementGate", "WaitGate") for pre in (False, True)]
     return [
         CaseStage("dm_final_state", dm_cases, run_dm, reset=reset, describe=describe_dm),
-        CaseStage("sv_trajectories", sv_cases, run_sv, reset=reset, describe=describe_sv),
+        CaseStage("sv_trajectories", sv_cases, run_sv, reset=reset, describe=describe_sv, chunk=128),
         CaseStage("channel_descriptions", desc_letters, run_desc_letter, reset=reset, describe=lambda c: _L[c[0]].name),
         CaseStage("moment_circuit_superoperators", desc_circ, run_desc_circuit, reset=reset, describe=describe_desc_circuit),
-        CaseStage("noise_models", noise_cases, run_noise, reset=reset, describe=describe_noise),
+        CaseStage("noise_models", noise_cases, run_noise, reset=reset, describe=describe_noise, chunk=128),
         CaseStage("thermal_noise_lindbladian", thermal_cases, run_thermal_kraus, reset=reset),
         CaseStage("api_acceptance", [(i,) for i in range(len(API_CASES))], run_api, reset=reset, describe=lambda c: API_CASES[c[0]]),
     ]
